@@ -5,7 +5,7 @@ import json
 import hashlib
 
 VERIF = os.path.dirname(os.path.dirname(os.path.abspath(__file__)))
-KNOWN_FILE = os.path.join(VERIF, 'KNOWN_FINDINGS.txt')
+KNOWN_FILE = os.environ.get('MOSMC_KNOWN_FILE') or os.path.join(VERIF, 'KNOWN_FINDINGS.txt')
 REPLAY_DIR = os.environ.get('MOSMC_REPLAY_DIR') or os.path.join(VERIF, 'replays')
 
 
